@@ -570,6 +570,8 @@ def dispatch_text(r):
         lines = [f"%x = arith.addi %a{n}, %a{n} : {T}", kline(b["kernel"], names, "%k"), f"linalg.yield %k : {T}"]
     elif kind == "two-kernels":
         lines = [kline(b["kernel"], names, "%k"), kline(b["kernel"], names, "%k2"), f"linalg.yield %k2 : {T}"]
+    elif kind == "kernel-chain":  # a second kernel op consumes the result of the first and is yielded
+        lines = [kline(b["kernel"], names, "%k"), kernel_line(b.get("chain", "add"), [T, T, T], ["%k", "%k"], "%k2"), f"linalg.yield %k2 : {T}"]
     elif kind == "arith":
         n = len(tys) - 1
         lines = [f"%x = arith.muli %a{n}, %a{n} : {T}", f"linalg.yield %x : {T}"]
@@ -601,13 +603,15 @@ def dispatch_recipe(draw, tier="quick"):
         widths[i] = draw(st.sampled_from(WIDTHS))
     else:
         widths = [draw(st.sampled_from(WIDTHS)) for _ in range(k + 1)]
-    kind = draw(st.sampled_from(["kernel"] * 7 + ["kernel+arith", "kernel+arith-dead", "arith+kernel", "two-kernels", "arith", "yield-only"]))
+    kind = draw(st.sampled_from(["kernel"] * 7 + ["kernel+arith", "kernel+arith-dead", "arith+kernel", "two-kernels", "kernel-chain", "arith", "yield-only"]))
     wiring = list(range(k))
     if draw(st.integers(0, 4)) == 0:
         wiring = draw(st.sampled_from(_wirings(widths, k)))
     preset = draw(st.sampled_from([None] * 8 + ["already_there", "snax_alu"]))
-    return dict(accs=accs, body=dict(kind=kind, kernel=kernel, types=[ty(w) for w in widths], wiring=wiring),
-                shape=draw(st.sampled_from(["static", "static", "dynamic"])), preset=preset)
+    body = dict(kind=kind, kernel=kernel, types=[ty(w) for w in widths], wiring=wiring)
+    if kind == "kernel-chain":
+        body["chain"] = draw(st.sampled_from(["add", "mul"]))
+    return dict(accs=accs, body=body, shape=draw(st.sampled_from(["static", "static", "dynamic"])), preset=preset)
 
 
 def dispatch_exhaustive(tier):
